@@ -203,6 +203,11 @@ func init() {
 			family{Name: "candidates/max2", Base: func() sim.History { return c10History(genesis4c("2")) }, Menu: c10Menu(), WithEnv: true, NAppend: 2, MaxD: 2, MaxDTh: 2,
 				Core: coreAppend(blocksSet(1, 2, 4), 10, 0), Restarts: []int64{3, 5}},
 		)
+		fams = append(fams, family{Name: "candidates/minimum-stake-raised", Base: func() sim.History {
+			h := c10History(genesis4c("3"))
+			h.Blocks[2].Txs = []sim.TxSpec{prop("V0", 1, 1, 1, `{"minValidatorStake":"11000000000000000000"}`)}
+			return h
+		}, Menu: c10Menu(), WithEnv: true, NAppend: 1, MaxD: 1, MaxDTh: 2, Restarts: []int64{6, 7}})
 		return &modelCheck{id: "C10", owners: map[string]bool{"C10": true}, families: fams,
 			meta: modelMeta("deviation-bounded exhaustive history exploration; validator updates folded with tendermint's real ValidatorSet and compared with the staking ledger",
 				"C10 families: 4 candidates (three genesis validators 12/10/10 with a tie, a fourth self-staking 10) around maxValidatorCnt 3 and 2, a passing proposal that lowers the count, menus of self-staking / delegation / unstaking / power ties at the cut / governance changes of count and minimum stake, evidence, jailing, and one restart at several boundaries; D<=2 (thorough 3). "+
